@@ -165,7 +165,7 @@ func descSnaps(a []*asset.Snapshot) string {
 // checkReads issues every read against the repository and compares with the model.
 // Returns (violation, knownKey).
 func checkReads(repo asset.Repository, m *repoModel, kind string, tolerateKnown bool) (string, string) {
-	for _, name := range []string{"A", "B", "Z"} {
+	for _, name := range []string{"A", "gs", "Z"} {
 		want := m.data[name]
 		ch, err := repo.Get(name)
 		switch {
@@ -329,11 +329,11 @@ func repoUnit(c *core.Ctx, k repoKind, init string, depth int) {
 		c.Fail(key, fmt.Sprintf("%s repository (initial state %s), no operations: %s", k.name, init, viol), nil)
 	}
 	seen := map[string]bool{s0: true}
-	frontier := []st{{nil, map[string]int{"A": -1, "B": -1}}}
+	frontier := []st{{nil, map[string]int{"A": -1, "gs": -1}}}
 	for d := 0; d < depth && len(frontier) > 0; d++ {
 		var next []st
 		for _, s := range frontier {
-			for _, name := range []string{"A", "B"} {
+			for _, name := range []string{"A", "gs"} { // "gs" ends in characters of the ".csv" suffix
 				for bi, b := range batches {
 					if monotone && len(b) > 0 && b[0] < s.last[name] {
 						continue // dates are monotone per asset (equal dates allowed)
@@ -355,7 +355,7 @@ func repoUnit(c *core.Ctx, k repoKind, init string, depth int) {
 					}
 					if !seen[state] {
 						seen[state] = true
-						l2 := map[string]int{"A": s.last["A"], "B": s.last["B"]}
+						l2 := map[string]int{"A": s.last["A"], "gs": s.last["gs"]}
 						if len(b) > 0 {
 							l2[name] = b[len(b)-1]
 						}
